@@ -238,6 +238,9 @@ class HybridGibbs:
             if not isinstance(sampler, NUTS): # Again, special case for NUTS.
                 sampler.set_state(sampler_state)
                 sampler.set_history(sampler_history)
+                # The cached evaluations carried over in the state belong to the
+                # previous conditional target. Refresh them for the new target.
+                self._refresh_cached_evaluations(sampler)
 
             # Run pre_warmup and pre_sample methods for sampler
             # TODO. Some samplers (NUTS) seem to require to run _pre_warmup before _pre_sample
@@ -256,6 +259,16 @@ class HybridGibbs:
                 self.current_samples[par_name] = sampler.current_point.reshape(-1)
             else:
                 self.current_samples[par_name] = sampler.current_point
+
+    @staticmethod
+    def _refresh_cached_evaluations(sampler):
+        """ Re-evaluate cached target quantities of a sampler at its current point for its current target. """
+        if getattr(sampler, 'current_target_logd', None) is not None:
+            sampler.current_target_logd = sampler.target.logd(sampler.current_point)
+        if getattr(sampler, 'current_target_grad', None) is not None:
+            sampler.current_target_grad = sampler.target.gradient(sampler.current_point)
+        if getattr(sampler, 'current_likelihood_logd', None) is not None:
+            sampler.current_likelihood_logd = sampler.target.likelihood.logd(sampler.current_point)
 
     def tune(self, skip_len, update_count):
         """ Run a single tuning step on each of the samplers in the Gibbs sampling scheme
